@@ -200,9 +200,16 @@ inductive Strat
   | sum | stop (k : Nat) | twice | rev | never | postinc | walk (ops : List Char)
 deriving Repr, Inhabited
 
+/-- the strategy a *void* accumulator can follow: it sees no values, so a threshold (`stop k`) is `sum` -/
+def Strat.forVoid : Strat → Strat
+  | .stop _ => .sum
+  | st => st
+
+def Strat.forFlavour (st : Strat) (fl : Flavour) : Strat := if fl.isVoid then st.forVoid else st
+
 inductive FSpec
   | fn (fid : Nat) | mem (fid t : Nat) | trk (fid t1 : Nat) (t2 : Option Nat) | bref (fid t : Nat)
-  | nest (s : Nat) | fwd (g : Nat) | ownT (fid t : Nat) | ownK (fid k : Nat) | bad
+  | nest (s : Nat) | fwd (g : Nat) | ownT (fid t : Nat) | ownK (fid k : Nat) | ownG (fid g : Nat) | bad
 deriving Repr, Inhabited
 
 inductive Op
@@ -256,6 +263,7 @@ structure St where
   impls : List (Nat × Impl) := []
   ownedT : List Nat := []              -- trackable objects kept alive only by owning functors
   ownedK : List (Nat × Option Nat) := []  -- scoped connections owned by functors ↦ their connection
+  ownedG : List (Nat × Nat) := []      -- signal objects owned by functors: owner id ↦ name in `G`
   next : Nat := 1
   depth : Nat := 0
   steps : Nat := 0                     -- operations executed so far
@@ -448,6 +456,7 @@ def mkFun (s : St) (isVoid : Bool) : FSpec → Except String (Fun × St)
     | none => .error "dead"
     | some h =>
       if h.fl.isVoid != isVoid then .error "badtype"
+      else if !h.fl.isTrackable && s.ownedG.any (fun p => p.2 = g) then .error "owned"
       else
         let s := { s with G := aset s.G g { h with everFwd := true } }
         .ok (.fwd h.obj (if h.fl.isTrackable then [h.trk] else []), s)
@@ -462,6 +471,16 @@ def mkFun (s : St) (isVoid : Bool) : FSpec → Except String (Fun × St)
     | some p =>
       let (id, s) := s.fresh
       .ok (.owner fid [] [id], { s with K := adel s.K k, ownedK := (id, p) :: s.ownedK })
+  | .ownG fid g =>
+    -- the functor takes the signal object into a `shared_ptr`; the name stays usable as an alias of the
+    -- object for as long as a functor copy keeps it alive (`delG` answers `owned`)
+    match aget s.G g with
+    | none => .error "dead"
+    | some h =>
+      if h.everFwd && !h.fl.isTrackable then .error "pinned" else
+      if s.ownedG.any (fun p => p.2 = g) then .error "owned" else
+      let (id, s) := s.fresh
+      .ok (.owner fid [] [id], { s with ownedG := (id, g) :: s.ownedG })
   | .bad => .error "badtype"
 
 /-! ## iterator buffer (`slot_iterator_buf`) -/
@@ -541,8 +560,20 @@ def heldT (s : St) (o : Nat) : Bool :=
 def heldK (s : St) (k : Nat) : Bool :=
   s.S.any (fun p => p.2.slot.holdsK k) || s.impls.any (fun p => p.2.cells.any (fun c => c.slot.holdsK k))
 
-/-- one owned object whose last owning functor copy is gone dies: `~Trk` (→ `notify_callbacks()`) or
-    `~scoped_connection` (→ `disconnect()`) -/
+/-- the signal object named `g` is destroyed (what `delG` does when it does not refuse): `~trackable` first
+    (trackable flavours), then `~signal_base` -/
+def dropHandle (s : St) (g : Nat) : St :=
+  match aget s.G g with
+  | none => s
+  | some h =>
+    let s := if h.fl.isTrackable then invalidateTrackable s h.trk else s
+    let s := { s with G := adel s.G g }
+    match h.impl with
+    | some im => gcImpl s im
+    | none => s
+
+/-- one owned object whose last owning functor copy is gone dies: `~Trk` (→ `notify_callbacks()`),
+    `~scoped_connection` (→ `disconnect()`) or the signal object (→ `dropHandle`) -/
 def collectStep (s : St) : Option St :=
   match s.ownedT.find? (fun o => !heldT s o) with
   | some o => some (invalidateTrackable { s with ownedT := s.ownedT.filter (· ≠ o) } o)
@@ -553,7 +584,10 @@ def collectStep (s : St) : Option St :=
       some (match p with
         | some cid => disconnectCell s cid
         | none => s)
-    | none => none
+    | none =>
+      match s.ownedG.find? (fun p => !heldK s p.1) with
+      | some (k, g) => some (dropHandle { s with ownedG := s.ownedG.filter (fun q => q.1 ≠ k) } g)
+      | none => none
 
 def collectN : Nat → St → St
   | 0, s => s
@@ -565,7 +599,7 @@ def collectN : Nat → St → St
 /-- run the destructors of every owned object that no functor copy holds any more (each step removes
     one owned object, so `ownedT.length + ownedK.length` steps reach the fixpoint);
     the identity when nothing is owned -/
-def collect (s : St) : St := collectN (s.ownedT.length + s.ownedK.length) s
+def collect (s : St) : St := collectN (s.ownedT.length + s.ownedK.length + s.ownedG.length) s
 
 /-- live copies of user functor `fid` held by the library -/
 def liveCount (s : St) (fid : Nat) : Nat :=
@@ -577,7 +611,7 @@ def liveTotal (s : St) : Nat :=
   + (s.impls.map (fun p => (p.2.cells.map (fun c => c.slot.liveAll)).sum)).sum
 
 def FSpec.isOwner : FSpec → Bool
-  | .ownT _ _ | .ownK _ _ => true
+  | .ownT _ _ | .ownK _ _ | .ownG _ _ => true
   | _ => false
 
 /-- the mode rule of the language (see `Prog.owners`): `some result` = the operation is refused -/
@@ -802,6 +836,10 @@ def stepSimple (s : St) (op : Op) : Option (St × String) :=
     | some d, some h =>
       if d.fl ≠ h.fl then ok s "badtype" else
       if d.lvl ≠ h.lvl then ok s "badlevel" else
+      -- move assignment may assume that both objects outlive the call: refused when the old slot list, which the
+      -- assignment releases, may own the source (any flavour) or the destination (read again by trackable_signal)
+      if !h.fl.isAcc && (s.ownedG.any (fun p => p.2 = i) || (h.fl.isTrackable && s.ownedG.any (fun p => p.2 = j)))
+      then ok s "owned" else
       if h.fl.isAcc then
         -- no move assignment for `accumulated`: copy assignment
         if j = i then ok s "ok" else
@@ -822,6 +860,7 @@ def stepSimple (s : St) (op : Op) : Option (St × String) :=
     | none => ok s "dead"
     | some h =>
       if h.everFwd && !h.fl.isTrackable then ok s "pinned" else
+      if s.ownedG.any (fun p => p.2 = i) then ok s "owned" else
       -- ~trackable first (trackable flavours), then ~signal_base
       let s := if h.fl.isTrackable then invalidateTrackable s h.trk else s
       let s := { s with G := adel s.G i }
@@ -1069,7 +1108,7 @@ def emitImpl : Nat → Prog → St → Flavour → Option Nat → Nat → Strat 
           | c :: _ => c.id
         let s := setImpl s i { im with exec := im.exec + 1, holders := im.holders + 1,
                                        cells := im.cells ++ [{ id := m, slot := {}, linked := false }] }
-        let r := if fl.isAcc then runStrat f P s i first m arg strat
+        let r := if fl.isAcc then runStrat f P s i first m arg (strat.forFlavour fl)
                  else emitLoop f P s i first m arg 0
         match r with
         | none => none
